@@ -221,7 +221,7 @@ B[
 
 def MustAs : Func := { name := "MustAs", recv := "", params := ["r"], body :=
 B[
-  (.define ["typed", "ok"] E[(.unsupported "As[T](r)")]),
+  (.define ["typed", "ok"] E[(.call "As[T]" E[(.var "r")])]),
   (.ifS B[] (.un "!" (.var "ok")) B[
     (.expr (.call "panic" E[(.call "fmt.Sprintf" E[(.str "Result.MustAs: value is not of type %T"), (.un "*" (.call "new" E[(.var "T")]))])]))] B[]),
   (.ret E[(.var "typed")])] }
